@@ -253,9 +253,10 @@ def _join_side(fx, forest, want):
                 return evals, [("gen-blocks-text", "format_config_blocks = %r\nmatch(hw).make_formatter(indent).join = %r"
                                 % (g0, g))], lines
         stage = "parse(format_config_blocks)"
-        tg = parse(g, fmt.split)
-        evals += 1
-        got = env.tree_to_list(tg)
+        if g != s:          # otherwise this very text was parsed in stage 1 (formatters whose default unit is "  ")
+            tg = parse(g, fmt.split)
+            evals += 1
+            got = env.tree_to_list(tg)
         if got != want:
             return evals, [("gen-blocks", "format_config_blocks text:\n%s\nparsed back: %r\nexpected:    %r\n%s"
                             % (g, got, want, _first_diff(want, got)))], lines
